@@ -645,6 +645,11 @@ class InterpMixin(object):
             self.unsupported("with: multiple items")
         item = s.items[0]
         mgr = self.eval(item.context_expr, fr)
+        if isinstance(mgr, SExt) and mgr.attrs.get("cm") == "noop":
+            if item.optional_vars is not None:
+                self.assign(item.optional_vars, mgr, fr)
+            self.exec_block(s.body, fr)
+            return
         enter = self.getattr_(mgr, "__enter__")
         exit_ = self.getattr_(mgr, "__exit__")
         v = self.call_function(enter, [], {})
